@@ -179,6 +179,7 @@ CHECKS = {
             {"pkg": "Havoc/pkg/agent", "with": ["Havoc/pkg/logr", "Havoc/pkg/common/parser", "Havoc/pkg/socks"], "entries": ["H_c02_prepare"], "flags": ["-tags", "uf_aes"], "shards": 10},
             {"pkg": "Havoc/pkg/agent", "with": ["Havoc/pkg/logr", "Havoc/pkg/common/parser", "Havoc/pkg/socks"], "entries": ["H_c02_fs", "H_c02_proc"], "flags": ["-tags", "uf_aes,c02fs"], "split": True, "no_native_witness": True, "no_native_replay": True},
             {"pkg": "Havoc/pkg/agent", "with": ["Havoc/pkg/logr", "Havoc/pkg/common/parser", "Havoc/pkg/socks"], "entries": ["H_c02_token"], "flags": ["-tags", "uf_aes"], "shards": 9},
+            {"pkg": "Havoc/pkg/common", "entries": ["H_c02_encode_utf16"], "flags": ["-init", "golang.org/x/text/..."]},
         ],
         "bounds": "framing: one task with 0..2 arguments, or two tasks with 0..1 arguments each (thorough: 0..2), of the 11 supported Go types (strings/byte slices of 0..2 arbitrary bytes), arbitrary command and request ids, AES-CTR as uninterpreted key stream; TaskPrepare: EXIT, SLEEP (1..2 digit delay/jitter), JOB (4 sub-commands, 1..2 digit id), TRANSFER (4 sub-commands, any 8-hex-digit file id), PROC kill/modules (1..3 digit pid), PROC_LIST, PPIDSPOOF, PIVOT list/disconnect (any 8-hex-digit id); task id any 8 hex digits (EXIT) or fixed; file-system commands cd / remove / mkdir / pwd / dir (console form: four flags, three filters) / dir (explorer form) with a drive prefix and two arbitrary printable path characters, compared field by field with the read order of the Demon's CommandFS.",
         "outside": "all other commands and sub-commands (file/BOF/assembly based, NET, token make/find, CONFIG, KERBEROS, socks, the base64-carried FS sub-commands download/upload/cp/mv/cat), UNC paths, non-ASCII and long parameter strings, batches of more than 2 tasks",
